@@ -5,7 +5,7 @@ import math
 import numpy as np
 from hypothesis import strategies as st
 
-from ..core import Facet, Violation
+from ..core import Facet, Violation, attributed
 
 PROPERTY = "C11"
 RULE = (
@@ -518,6 +518,37 @@ def check_structure(case):
         gt, gw = np.asarray(bd["time"].values, dtype=float), np.asarray(bd["wavelength"].values, dtype=float)
         if (gt[0], gt[1]) != (bt[:, 0].min(), bt[:, 1].max()) or (gw[0], gw[1]) != (bw[:, 0].min(), bw[:, 1].max()):
             raise Violation("bounds", f"frame {k}: bounds() is not the union of the subframe bounds")
+    # The last frame propagated to an *array* of distances (one per detector pixel, as the tof
+    # workflows do): bounds and subbounds then carry that dimension, and each slice equals what the
+    # scalar call for that distance gives (seeded/C11-s11: bounds() reduced over all dimensions).
+    import scipp as sc
+
+    last = seq[-1]
+    if last.subframes and str(last.distance.unit) == "m":
+        d0 = float(last.distance.value)
+        offs = [0.0, 1.5, 4.25]
+        arr = sc.array(dims=["pixel"], values=[d0 + o for o in offs], unit="m")
+        with attributed("bounds()/subbounds() of a frame propagated to an array of distances"):
+            fa = last.propagate_to(arr)
+            ba, sa = fa.bounds(), fa.subbounds()
+        for name in ("time", "wavelength"):
+            if name == "time" and ("pixel" not in ba[name].dims or "pixel" not in sa[name].dims):
+                raise Violation("bounds-array", f"frame propagated to distances {arr.values.tolist()} m: "
+                                f"bounds()[{name!r}] has dims {ba[name].dims}, subbounds()[{name!r}] {sa[name].dims}: "
+                                "the distance dimension is gone")
+        for j, o in enumerate(offs):
+            fs = last.propagate_to(sc.scalar(d0 + o, unit="m"))
+            bs, ss = fs.bounds(), fs.subbounds()
+            for name in ("time", "wavelength"):
+                ga = ba[name]["pixel", j] if "pixel" in ba[name].dims else ba[name]
+                gs = sa[name]["pixel", j] if "pixel" in sa[name].dims else sa[name]
+                if not (np.array_equal(np.asarray(ga.values), np.asarray(bs[name].values))
+                        and np.array_equal(np.asarray(gs.values), np.asarray(ss[name].values))):
+                    raise Violation("bounds-array", f"frame propagated to the distances {arr.values.tolist()} m: "
+                                    f"{name} bounds for pixel {j} are {np.asarray(ga.values).tolist()} / subbounds "
+                                    f"{np.asarray(gs.values).tolist()}, the scalar call for {d0 + o} m gives "
+                                    f"{np.asarray(bs[name].values).tolist()} / {np.asarray(ss[name].values).tolist()}")
+        labs.append("array-distances")
     return labs, has_interpolated_vertex(seq, b)
 
 
